@@ -674,6 +674,36 @@ func foldSpecs() []*spec {
 	return out
 }
 
+// ids with a per cent sign (a fmt verb if a finished message is ever used as a format), and a
+// duplicated acyclic reference next to a cyclic one
+func oddSpecs() []*spec {
+	var out []*spec
+	ids := []string{"cov-100%", "a%sb", "x%d"}
+	for mask := uint64(0); mask < 1<<9; mask++ {
+		sp := &spec{group: "percent-ids"}
+		for i := 0; i < 3; i++ {
+			j := gjob{id: ids[i]}
+			for k := 0; k < 3; k++ {
+				if mask>>(uint(i*3+k))&1 == 1 {
+					j.needs = append(j.needs, ids[k])
+				}
+			}
+			sp.jobs = append(sp.jobs, j)
+		}
+		out = append(out, sp)
+	}
+	perms := [][]string{{"setup", "Setup", "test"}, {"setup", "test", "Setup"}, {"test", "setup", "SETUP"}, {"setup", "setup", "test"}, {"Setup", "test", "test", "setup"}, {"test", "setup", "setup"}}
+	for _, p := range perms {
+		for _, order := range [][3]int{{0, 1, 2}, {1, 2, 0}, {2, 0, 1}, {1, 0, 2}} {
+			jobs := []gjob{{"setup", nil}, {"build", p}, {"test", []string{"build"}}}
+			out = append(out, &spec{group: "duplicate-next-to-cycle", jobs: []gjob{jobs[order[0]], jobs[order[1]], jobs[order[2]]}})
+			jobs4 := []gjob{{"setup", nil}, {"lint", []string{"setup", "Setup"}}, {"build", append(append([]string{}, p...), "lint", "LINT")}, {"test", []string{"build", "lint", "lint"}}}
+			out = append(out, &spec{group: "duplicate-next-to-cycle", jobs: []gjob{jobs4[order[0]], jobs4[order[1]], jobs4[order[2]], jobs4[3]}})
+		}
+	}
+	return out
+}
+
 func bigID(r *hx.Rng, i int) string {
 	if r.Chance(1, 4) {
 		return fmt.Sprintf("J%d", i)
@@ -840,7 +870,7 @@ func main() {
 	hx.Must(os.MkdirAll(*out, 0o755))
 	thorough := *tier == "thorough"
 	sum := hx.NewSummary("C18")
-	sum.Rule = "needs graphs: every edge set (self loops included) over 1-4 jobs in ascending and descending order of the needs entries, references in both spellings; 3 jobs with every needs list up to a length bound over {a, A, b, c, x (dangling), empty}; 5-job graphs (random edge sets of random density; thorough: half of them a bijective stride through all 2^25 edge sets); 4- and 5-job graphs with the needs entries in random order; job ids that only Unicode case folding identifies (s / long s, sigma / final sigma, micro / mu); 3-5 jobs written as ONE flow-style line (positions differ in the column only; more repetitions); random graphs of 6-40 jobs (DAG, one embedded simple cycle, dense) with dangling/duplicate/case-variant references. non-trivial = the rule reports a missing reference or a cycle; distinct = distinct workflow text"
+	sum.Rule = "needs graphs: every edge set (self loops included) over 1-4 jobs in ascending and descending order of the needs entries, references in both spellings; 3 jobs with every needs list up to a length bound over {a, A, b, c, x (dangling), empty}; 5-job graphs (random edge sets of random density; thorough: half of them a bijective stride through all 2^25 edge sets); 4- and 5-job graphs with the needs entries in random order; ids with a per cent sign; a duplicated acyclic reference next to a cyclic one; job ids that only Unicode case folding identifies (s / long s, sigma / final sigma, micro / mu); 3-5 jobs written as ONE flow-style line (positions differ in the column only; more repetitions); random graphs of 6-40 jobs (DAG, one embedded simple cycle, dense) with dangling/duplicate/case-variant references. non-trivial = the rule reports a missing reference or a cycle; distinct = distinct workflow text"
 	hangReport = func(src string) {
 		sum.OracleFails = append(sum.OracleFails, failure{What: "the rule does not terminate on this input within 20 s", Key: "hang:" + src, Workflow: src})
 		sum.Write(filepath.Join(*out, "summary.json"))
@@ -971,6 +1001,8 @@ func main() {
 
 	// (c') ids related by Unicode case folding only
 	process(foldSpecs(), reps, 7)
+	// (c'') per cent signs in ids; duplicated references next to a cycle
+	process(oddSpecs(), reps, 11)
 
 	// (d) 5 jobs
 	cnt5 := *n5
